@@ -136,7 +136,10 @@ var junkValues = []string{`null`, `true`, `false`, `0`, `-12.5e3`, `"text"`, `""
 
 func unknownAttrs(r *rand.Rand) [][2]string {
 	var out [][2]string
-	names := []string{"doc", "default", "aliases", "order", "precision", "scale", "x-custom", "java-class", "Type", "NAME", "sizes", "item", "field"}
+	// unknown attributes, including near misses of the known names (different case, separators, plural)
+	names := []string{"doc", "default", "aliases", "order", "precision", "scale", "x-custom", "java-class", "Type", "NAME", "sizes", "item", "field",
+		"logical_type", "Logical-Type", "LOGICALTYPE", "logicaltype", "logical-type", "Name", "name_", "NAMESPACE", "name-space", "name_space", "Fields", "FIELDS", "field_s",
+		"Items", "ITEMS", "items_", "Values", "VALUES", "Size", "SIZE", "si_ze", "Symbols", "SYMBOLS", "TYPE", "ty_pe", "t-y-p-e"}
 	n := 0
 	if r.IntN(3) == 0 {
 		n = 1 + r.IntN(3)
